@@ -40,7 +40,10 @@ pub const SUBSCRIPT: RErr = RErr::Code(9);
 pub const TYPE_MISMATCH: RErr = RErr::Code(13);
 
 fn in_domain(x: f64) -> bool {
-    x.is_finite() && x.abs() < 1.0e13 && (x * 1048576.0).fract() == 0.0
+    // small dyadic rationals; or huge values (C06's arithmetic at the largest finite SINGLE / DOUBLE):
+    // those are whole, the SINGLE results are checked for exact representability by `check`, DOUBLE
+    // arithmetic is the same IEEE operation on both sides, and they are never printed (R14)
+    x.is_finite() && ((x.abs() < 1.0e13 && (x * 1048576.0).fract() == 0.0) || x.abs() >= 1.0e30)
 }
 
 pub fn fits(ty: Ty, x: f64) -> bool {
@@ -48,6 +51,7 @@ pub fn fits(ty: Ty, x: f64) -> bool {
         Ty::Int => (-32768.0..=32767.0).contains(&x),
         Ty::Long => (-2147483648.0..=2147483647.0).contains(&x),
         Ty::Single => x.abs() <= f32::MAX as f64,
+        Ty::Double => x.is_finite(),
         _ => true,
     }
 }
